@@ -6,7 +6,7 @@ CONSTANTS
   NP = 1
   Names = {"a", "b"}
   Vals = {1, 2}
-  Acts = {"CreateGroup", "CreateObject", "AddData", "SetVal", "Rename", "RemoveViaWorkspace", "RemoveViaParent", "Close", "Open", "CallClosed", "AddDataFails", "SaveAs", "Helper"}
+  Acts = {"CreateGroup", "CreateObject", "AddData", "SetVal", "Rename", "RemoveViaWorkspace", "RemoveViaParent", "Close", "Open", "CallClosed", "AddDataFails", "SaveAs", "Helper", "OpenAgain"}
   Deviations = {"CloseKeepsOrphans"}
   MaxDepth = 5
 CONSTRAINT DepthBound
